@@ -27,7 +27,9 @@ fn mk_transport(prefer_srflx: bool, role: IceRole) -> IceTransport {
 
 /// (A) check order on synthetic candidate sets (no sockets: every check fails at once, only the order matters)
 fn order_cases(run: &mut Run, rng: &mut Rng, rt: &tokio::runtime::Runtime, thorough: bool) {
-    let ips: [IpAddr; 8] = [IpAddr::V4(Ipv4Addr::new(10, 0, 0, 5)), IpAddr::V4(Ipv4Addr::new(192, 168, 1, 7)), IpAddr::V4(Ipv4Addr::new(203, 0, 113, 9)),
+    // address classes std distinguishes (a filter or re-sort keyed on any of them shows as a model disagreement): private,
+    // global, loopback, unique-local, link-local (v4 and v6), CGNAT shared space
+    let ips: [IpAddr; 11] = [IpAddr::V6(Ipv6Addr::new(0xfe80, 0, 0, 0, 0, 0, 0, 1)), IpAddr::V4(Ipv4Addr::new(169, 254, 7, 7)), IpAddr::V4(Ipv4Addr::new(100, 64, 0, 9)), IpAddr::V4(Ipv4Addr::new(10, 0, 0, 5)), IpAddr::V4(Ipv4Addr::new(192, 168, 1, 7)), IpAddr::V4(Ipv4Addr::new(203, 0, 113, 9)),
         IpAddr::V4(Ipv4Addr::new(127, 0, 0, 1)), IpAddr::V4(Ipv4Addr::new(198, 51, 100, 3)), IpAddr::V6(Ipv6Addr::new(0xfd00, 0, 0, 0, 0, 0, 0, 1)),
         IpAddr::V6(Ipv6Addr::new(0x2001, 0xdb8, 0, 0, 0, 0, 0, 2)), IpAddr::V6(Ipv6Addr::LOCALHOST)];
     let n = if thorough { 6000 } else { 500 };
@@ -43,7 +45,7 @@ fn order_cases(run: &mut Run, rng: &mut Rng, rt: &tokio::runtime::Runtime, thoro
             let comp = *rng.pick(&[1u16, 1, 1, 2]);
             let mut c = match rng.below(8) {
                 0..=3 => IceCandidate::host(addr, comp),
-                4 => chook::server_reflexive(SocketAddr::new(ips[0], port), addr, comp),
+                4 => chook::server_reflexive(SocketAddr::new(ips[3], port), addr, comp),
                 5 => chook::relay(addr, comp, "udp"),
                 6 => IceCandidate::host_tcp(addr, comp, if remote { TcpType::Active } else { TcpType::Passive }),
                 _ => { let mut c = IceCandidate::host(addr, comp); c.typ = IceCandidateType::PeerReflexive; c.priority = chook::priority_for(IceCandidateType::PeerReflexive, comp); c }
@@ -58,7 +60,7 @@ fn order_cases(run: &mut Run, rng: &mut Rng, rt: &tokio::runtime::Runtime, thoro
         let nr = rng.range(1, 4) as usize;
         let locals: Vec<IceCandidate> = (0..nl).map(|_| mkc(rng, false)).collect();
         let remotes: Vec<IceCandidate> = (0..nr).map(|_| mkc(rng, true)).collect();
-        let remotes: Vec<IceCandidate> = if variant == 3 { remotes.into_iter().map(|mut r| { if rng.chance(1, 2) { r = IceCandidate::host_tcp(SocketAddr::new(ips[2], r.address.port()), r.component, TcpType::Passive); } r }).collect() } else { remotes };
+        let remotes: Vec<IceCandidate> = if variant == 3 { remotes.into_iter().map(|mut r| { if rng.chance(1, 2) { r = IceCandidate::host_tcp(SocketAddr::new(ips[5], r.address.port()), r.component, TcpType::Passive); } r }).collect() } else { remotes };
         for l in &locals { t.verif_add_local_candidate(l.clone()); }
         for r in &remotes { t.verif_add_remote_candidate_quiet(r.clone()); }
         if variant == 1 { t.verif_set_state(*rng.pick(&[IceTransportState::New, IceTransportState::Connected, IceTransportState::Completed, IceTransportState::Failed, IceTransportState::Disconnected])); }
@@ -426,7 +428,7 @@ pub fn keepalive_probe_case(run: &mut Run, rt: &tokio::runtime::Runtime, kind: &
 /// distinct (the hypotheses of `pair_order_agree_stack`, decided here on the recorded lists) the two lists must
 /// be each other's swap; with tied pair priorities they may differ (known finding, `pair_order_tie_witness`).
 fn two_agent_cases(run: &mut Run, rng: &mut Rng, rt: &tokio::runtime::Runtime, thorough: bool) {
-    let ips: [IpAddr; 5] = [IpAddr::V4(Ipv4Addr::new(10, 0, 0, 5)), IpAddr::V4(Ipv4Addr::new(192, 168, 1, 7)), IpAddr::V4(Ipv4Addr::new(203, 0, 113, 9)),
+    let ips: [IpAddr; 9] = [IpAddr::V6(Ipv6Addr::new(0xfe80, 0, 0, 0, 0, 0, 0, 1)), IpAddr::V6(Ipv6Addr::new(0xfd00, 0, 0, 0, 0, 0, 0, 1)), IpAddr::V4(Ipv4Addr::new(169, 254, 7, 7)), IpAddr::V4(Ipv4Addr::new(127, 0, 0, 1)), IpAddr::V4(Ipv4Addr::new(10, 0, 0, 5)), IpAddr::V4(Ipv4Addr::new(192, 168, 1, 7)), IpAddr::V4(Ipv4Addr::new(203, 0, 113, 9)),
         IpAddr::V4(Ipv4Addr::new(198, 51, 100, 3)), IpAddr::V6(Ipv6Addr::new(0x2001, 0xdb8, 0, 0, 0, 0, 0, 2))];
     let n = if thorough { 3000 } else { 300 };
     for i in 0..n {
@@ -437,7 +439,7 @@ fn two_agent_cases(run: &mut Run, rng: &mut Rng, rt: &tokio::runtime::Runtime, t
             let addr = SocketAddr::new(*rng.pick(&ips), port);
             let mut c = match rng.below(if multihomed { 2 } else { 6 }) {
                 0..=1 => IceCandidate::host(addr, 1),
-                2 => chook::server_reflexive(SocketAddr::new(ips[0], port), addr, 1),
+                2 => chook::server_reflexive(SocketAddr::new(ips[4], port), addr, 1),
                 3 => chook::relay(addr, 1, "udp"),
                 _ => { let mut c = IceCandidate::host(addr, 1); c.typ = IceCandidateType::PeerReflexive; c.priority = chook::priority_for(IceCandidateType::PeerReflexive, 1); c }
             };
@@ -447,8 +449,9 @@ fn two_agent_cases(run: &mut Run, rng: &mut Rng, rt: &tokio::runtime::Runtime, t
         let la: Vec<IceCandidate> = (0..rng.range(1, 4)).map(|_| mkc(rng)).collect();
         let lb: Vec<IceCandidate> = (0..rng.range(1, 4)).map(|_| mkc(rng)).collect();
         let mut lists = vec![];
+        let prefer = i % 4 == 1;               // the optional, non-default `prefer_srflx_over_natted_host` re-sort on both agents
         for (role, locals, remotes) in [(IceRole::Controlling, &la, &lb), (IceRole::Controlled, &lb, &la)] {
-            let t = mk_transport(false, role);
+            let t = mk_transport(prefer, role);
             for l in locals { t.verif_add_local_candidate(l.clone()); }
             for r in remotes { t.verif_add_remote_candidate_quiet(r.clone()); }
             pairs::take();
@@ -460,17 +463,32 @@ fn two_agent_cases(run: &mut Run, rng: &mut Rng, rt: &tokio::runtime::Runtime, t
         let b_swapped: Vec<(SocketAddr, SocketAddr, u64)> = lists[1].iter().map(|(l, r, p)| (*r, *l, *p)).collect();
         let case = format!("twoagent A={} B={}", la.iter().map(|c| format!("{}/{}", c.address, c.priority)).collect::<Vec<_>>().join(","), lb.iter().map(|c| format!("{}/{}", c.address, c.priority)).collect::<Vec<_>>().join(","));
         let key = |v: &[(SocketAddr, SocketAddr, u64)]| { let mut k: Vec<(SocketAddr, SocketAddr)> = v.iter().map(|x| (x.0, x.1)).collect(); k.sort(); k };
-        if key(&a) != key(&b_swapped) { run.count("twoagent_filter_not_symmetric_on_this_input"); continue; }
+        if key(&a) != key(&b_swapped) {
+            // the ONE recorded one-sided rule that can apply here (UDP candidates only): a loopback local is not paired with
+            // a non-loopback remote. Every other pair that one agent forms and the other does not is a violation.
+            let (ka, kb) = (key(&a), key(&b_swapped));
+            let explained = |l: &SocketAddr, r: &SocketAddr, dropped_by_a: bool| if dropped_by_a { l.ip().is_loopback() && !r.ip().is_loopback() } else { r.ip().is_loopback() && !l.ip().is_loopback() };
+            let bad: Vec<_> = kb.iter().filter(|p| !ka.contains(p)).filter(|(l, r)| !explained(l, r, true)).chain(ka.iter().filter(|p| !kb.contains(p)).filter(|(l, r)| !explained(l, r, false))).collect();
+            if !bad.is_empty() { run.fail("codec:pair-order:agents-form-different-pair-sets", &case, &format!("{bad:?}")); }
+            run.count("twoagent_one_sided_loopback_rule_applies"); continue; }
         // the same pair must carry the same pair priority on both sides (RFC 8445 §6.1.2.3)
         for x in &a { if let Some(y) = b_swapped.iter().find(|y| (y.0, y.1) == (x.0, x.1)) { if x.2 != y.2 { run.fail("codec:pair-order:agents-compute-different-priority-for-the-same-pair", &case, &format!("{x:?} vs {y:?}")); } } }
         let mut prios: Vec<u64> = a.iter().map(|x| x.2).collect(); prios.sort(); let distinct = prios.windows(2).all(|w| w[0] != w[1]);
         let same = a.iter().map(|x| (x.0, x.1)).eq(b_swapped.iter().map(|x| (x.0, x.1)));
-        if distinct {
+        if prefer {
+            // the re-sort looks at each side's LOCAL candidate, so it is one-sided by construction (known finding)
+            run.count("twoagent_prefer_srflx");
+            if !same { run.fail("codec:pair-order:agents-disagree:prefer-srflx-over-natted-host-resort", &case, &format!("{a:?} vs {b_swapped:?}")); }
+        } else if distinct {
             run.count("twoagent_distinct_priorities");
             if !same { run.fail("codec:pair-order:agents-disagree:distinct-pair-priorities", &case, &format!("{a:?} vs {b_swapped:?}")); }
         } else {
             run.count("twoagent_tied_priorities");
-            if !same { run.fail("codec:pair-order:agents-disagree:equal-pair-priorities", &case, &format!("{a:?} vs {b_swapped:?}")); }
+            // only the order INSIDE a run of equal pair priorities may differ (known finding); the sequence of priorities, and
+            // the set of pairs at each priority, must be the same on both sides
+            let groups = |v: &[(SocketAddr, SocketAddr, u64)]| { let mut g: Vec<(u64, Vec<(SocketAddr, SocketAddr)>)> = vec![]; for x in v { match g.last_mut() { Some(l) if l.0 == x.2 => l.1.push((x.0, x.1)), _ => g.push((x.2, vec![(x.0, x.1)])) } } for l in g.iter_mut() { l.1.sort(); } g };
+            if groups(&a) != groups(&b_swapped) { run.fail("codec:pair-order:agents-disagree:beyond-the-order-inside-equal-priority-runs", &case, &format!("{a:?} vs {b_swapped:?}")); }
+            else if !same { run.fail("codec:pair-order:agents-disagree:equal-pair-priorities", &case, &format!("{a:?} vs {b_swapped:?}")); }
         }
     }
 }
